@@ -22,7 +22,7 @@ CVC5_TIMEOUT_MS = int(os.environ.get("PYVC_CVC5_TIMEOUT_MS", "30000"))
 FEAS_TIMEOUT_MS = int(os.environ.get("PYVC_FEAS_TIMEOUT_MS", "1500"))
 PATH_CAP = int(os.environ.get("PYVC_PATH_CAP", "2000"))
 DEPTH_CAP = 400
-DEPTH_CAP_UNROLL = 24
+DEPTH_CAP_UNROLL = 60
 
 
 class PathEnd(BaseException):
@@ -245,6 +245,13 @@ class SymCtx:
             p.taken.append(("b", d))
             self._add(cond if d else z3.Not(cond))
             return d
+        # syntactic shortcut: the very same condition (or its negation) is already on the path
+        known = p.__dict__.setdefault("known_ids", {})
+        cid = cond.get_id()
+        if cid in known:
+            d = known[cid]
+            p.taken.append(("b", d))
+            return d
         t = self.feasible(cond)
         f = self.feasible(z3.Not(cond))
         if t and f:
@@ -263,6 +270,10 @@ class SymCtx:
     def _add(self, c):
         self.path.pc.append(c)
         self.path.solver.add(c)
+        known = self.path.__dict__.setdefault("known_ids", {})
+        known[c.get_id()] = True
+        if z3.is_not(c):
+            known[c.arg(0).get_id()] = False
 
     def assume_z3(self, c):
         c = z3.simplify(c)
@@ -313,13 +324,18 @@ class SymCtx:
         return self.oblige(name, z3.BoolVal(False), kind=kind)
 
     def cover(self, label):
-        """Canary / reachability: the current path condition must be satisfiable."""
+        """Canary / reachability: the current path condition must be satisfiable (once per label)."""
+        done = self.__dict__.setdefault("_covered", set())
+        if label in done:
+            return z3.sat
         s = z3.Solver()
-        s.set("timeout", Z3_TIMEOUT_MS)
+        s.set("timeout", min(Z3_TIMEOUT_MS, 3000))
         for c in self.path.pc:
             s.add(c)
         r = s.check()
         self.covers.append((label, str(r), self.path.no))
+        if r == z3.sat:
+            done.add(label)
         return r
 
     def use_model(self, tag):
@@ -337,7 +353,13 @@ class SymCtx:
                 self.exhausted = False
                 self.unsupported.append((self.paths_run, "path explosion: cap %d reached" % PATH_CAP))
                 break
-            prefix = self.worklist.pop()
+            # witness search / bounded units: shortest alternative first (shallow counterexamples are found
+            # before deep loop unrollings); proof mode: depth-first
+            if getattr(self, "unroll", False) and getattr(self, "bfs", False):
+                k = min(range(len(self.worklist)), key=lambda i: len(self.worklist[i]))
+                prefix = self.worklist.pop(k)
+            else:
+                prefix = self.worklist.pop()
             self.paths_run += 1
             self.path = Path(prefix, self.paths_run)
             self.path.choice_log = []
